@@ -277,6 +277,35 @@ def _run(ctx):
             r5.fail("C07.R5:recipient:%s" % c.path, c.path, sp, "payout recipient ⊢ %s, expected %s" % (sorted(rec), sorted(want)))
         else:
             r5.site("%s recipient ⊢ %s" % (sp, sorted(rec)[0]))
+    # a bank send built anywhere but in the transfer constructor is a payout of its own: it is judged in the handler it is
+    # built for (lifted through single-call-site helpers), with the recipient that handler's payouts must have
+    for (fn, b, i, adt, var, v, span) in sites:
+        if common.adt_short(adt) != "BankMsg" or var != "Send":
+            continue
+        root_fn = P.fn(fn.parent) if fn.kind == "closure" and fn.parent else fn
+        if root_fn.path == tc.path or "::tests::" in root_fn.path or "mock_querier" in root_fn.path:
+            continue
+        sp = span.replace("!x", "")
+        to_v = dict(v[3]).get("to_address")
+        homes = {swap.path, wd.path}
+        cf_, lv_ = common.lift_value(P, root_fn, to_v, stop=lambda g_: g_.path in homes) if to_v is not None else (root_fn, None)
+        home = P.fn(cf_.parent) if cf_.kind == "closure" and cf_.parent else cf_
+        rec = set(ctx.roots(lv_)) if lv_ is not None else set()
+        if home.path == swap.path:
+            to_i = common.param_access(P, swap, r"^std::option::Option<cosmwasm_std::\S*Addr>$")
+            s_i = common.param_access(P, swap, r"^cosmwasm_std::\S*Addr$")
+            want = {"or(%s;%s)" % (to_i.some_root(), s_i.root())} if to_i is not None and s_i is not None else {"?"}
+        elif home.path == wd.path:
+            want = {P_(wd, common.param_index_of_type(wd, r"^cosmwasm_std::\S*Addr$"))}
+        else:
+            r5.fail("C07.R5:bank-send:unknown-payer:%s" % root_fn.path, fn.path, sp,
+                    "Bank::Send built in %s: not the transfer constructor and not built for the swap or withdraw handler" % root_fn.path)
+            continue
+        if rec != want:
+            r5.fail("C07.R5:bank-send:recipient:%s" % root_fn.path, fn.path, sp,
+                    "Bank::Send built in %s for %s goes to %s, expected %s" % (root_fn.path, home.path, sorted(rec), sorted(want)))
+        else:
+            r5.site("%s Bank::Send recipient ⊢ %s" % (sp, sorted(rec)[0]))
     # the withdraw handler's sender is the cw20 envelope's sender
     recv, edge, region, h, callbb = pr.withdraw_hook
     recv0, cw20_i = roles.cw20_envelope(P, "pair")
